@@ -105,6 +105,11 @@ def execute(acc, case):
                     for _, o in mine:
                         sc.node.send_message(o)
                 done.append(1)
+            if case.get("park") is not None:
+                # park sweep (DESIGN 2.5b): submitter0 is descheduled at its n-th source line inside the library until the other
+                # submitters have returned and the send queue is empty (or half a virtual second has passed)
+                sc.sched.parks.append({"task": "submitter0", "nth": case["park"], "timeout": 0.5,
+                                       "release": lambda: len(done) >= len(plans) - 1 and assoc._send_messages.empty()})
             for sidx, mine in enumerate(plans):
                 sc.sched.spawn("submitter%d" % sidx, submitter, mine, case.get("batch", False) and sidx % 2 == 0)
             inbound_sent = []
@@ -121,6 +126,10 @@ def execute(acc, case):
             sc.sched.run_until(lambda: len(done) == len(plans), 8.0, "submitters")
             quiet = sc.quiesce(timeout=8.0)
             acc.counters["executions"] += 1
+            if sc.sched.parked_at:
+                acc.counters["submitter_parked_while_others_write"] += 1
+                acc.extra.setdefault("parked_at", {})
+                acc.extra["parked_at"][sc.sched.parked_at[0][1]] = acc.extra["parked_at"].get(sc.sched.parked_at[0][1], 0) + 1
             sc._pull()
             written = bytes(sc.emitted_buf)
             frames, residue = R.split_messages(written)
@@ -230,6 +239,10 @@ def plan(tier, seed):
                       "write": rng.choice(["fixed1", "fixed7", "fixed50", "random", "zero-window"]), "inbound": 0,
                       "inbound_on_partial": rng.choice([1, 2, 4, 50]), "strategy": rng.choice(["rr", "rw"]), "p": rng.choice([0.02, 0.1]),
                       "role": rng.choice(["client", "server"]), "batch": rng.random() < 0.3, "transport": rng.choice(["TCP", "TCP", "SCTP"])})
+    for nth in range(0, 64 if q else 150):
+        for w in (["fixed50"] if q else ["full", "fixed7", "zero-window"]):
+            cases.append({"seed": seed * 53 + nth, "submitters": 2, "per": 2, "write": w, "inbound": 0, "strategy": "rw", "p": 0.02,
+                          "role": ("client", "server")[nth % 2], "batch": nth % 4 == 3, "park": nth})
     for i in range(6 if q else 60):
         # aggregate above the 256 KiB batching limit, handed over in one send_messages() call
         cases.append({"seed": seed * 733 + i, "submitters": rng.choice([1, 2]), "per": 8, "big": True, "batch": True,
@@ -251,7 +264,7 @@ def main(tier, seed):
                           ["node-originated CER/CEA/DWR/DWA/DPR/DPA are legal in the outbound stream when they appear whole at message boundaries",
                            "vnet models Linux TCP send(): accepts a prefix or raises BlockingIOError",
                            "quiescence = all queues and buffers empty and two state-machine ticks without change"],
-                          t0, require_counters=("executions", "steps", "partial_sends", "batch_limit_reached", "inbound_injected_on_partial_write", "real_loopback_ok"))
+                          t0, require_counters=("executions", "steps", "partial_sends", "batch_limit_reached", "inbound_injected_on_partial_write", "real_loopback_ok", "submitter_parked_while_others_write"))
 
 
 def replay(w):
